@@ -100,6 +100,11 @@ def _gen_stmt(rng, layout, here, is_init, cfg, idx, in_class=False):
     if cfg["allplus"] and not in_class:
         kinds += ["allplus", "allplus", "allplus"]
     k = rng.choice(kinds)
+    if k in ("from", "import", "star") and not in_class and rng.random() < cfg.get("p_guarded", 0.0):
+        inner = _gen_stmt(rng, layout, here, is_init, {**cfg, "p_guarded": 0.0}, idx)
+        if inner["s"] in ("from", "import", "star"):
+            return {"s": "guarded", "how": rng.choice(["type_checking", "try", "if"]), "stmt": inner}
+        return inner
     if k == "def":
         return {"s": "def", "name": rng.choice(NAMES), "doc": rng.random() < 0.4}
     if k == "attr":
@@ -166,6 +171,15 @@ def _render_stmt(st, ind=""):
         if st["form"] == "via":
             return f"from {st['mod']} import {st['name']} as _m{i}\n__all__ = {st['names']!r} + _m{i}.__all__\n"
         return f"import {st['mod']} as _m{i}\n__all__ = {st['names']!r}\n__all__ += _m{i}.__all__\n"
+    if s == "guarded":
+        inner = _render_stmt(st["stmt"], ind + "    ")
+        if st["how"] == "type_checking":
+            return f"{ind}from typing import TYPE_CHECKING\n{ind}if TYPE_CHECKING:\n{inner}"
+        if st["how"] == "try":
+            return f"{ind}try:\n{inner}{ind}except ImportError:\n{ind}    pass\n"
+        return f"{ind}if True:\n{inner}"
+    if s == "doc":
+        return f'{ind}"""module docstring"""\n'
     if s == "syntax_error":
         return "def broken(:\n"
     raise AssertionError(s)
@@ -173,7 +187,10 @@ def _render_stmt(st, ind=""):
 
 def _gen_module(rng, layout, here, is_init, cfg):
     n = rng.choice([0, 1, 2, 3, 4, 5])
-    return [_gen_stmt(rng, layout, here, is_init, cfg, i) for i in range(n)]
+    stmts = [_gen_stmt(rng, layout, here, is_init, cfg, i) for i in range(n)]
+    if rng.random() < 0.25:
+        stmts.insert(0, {"s": "doc"})
+    return stmts
 
 
 def generate(rng, opts):
@@ -186,6 +203,7 @@ def generate(rng, opts):
         "wildcards": rng.random() < 0.75,
         "links": rng.random() < 0.3,
         "bases": rng.random() < 0.5,
+        "p_guarded": rng.choice([0.0, 0.0, 0.3]),
     }
     n_pkgs = rng.choice([1, 1, 2, 2, 3])
     layout = {}
@@ -243,7 +261,14 @@ def generate(rng, opts):
     for _ in range(n_extra_ops + len(order)):
         r = rng.random()
         if pending and r < 0.45:
-            ops.append({"op": "load", "pkg": pending.pop(0), "loader": rng.randrange(2)})
+            pkg = pending.pop(0)
+            variant = rng.choice(["pkg", "pkg", "pkg", "dotted", "nosub"])
+            op = {"op": "load", "pkg": pkg, "loader": rng.randrange(2)}
+            if variant == "dotted" and layout.get(pkg):
+                op["objspec"] = f"{pkg}.{rng.choice(layout[pkg])}"
+            elif variant == "nosub":
+                op["submodules"] = False
+            ops.append(op)
         elif r < 0.65:
             ops.append({"op": "resolve", "loader": rng.randrange(2), "implicit": rng.random() < 0.6, "external": rng.choice([True, False, None]), "max_iter": rng.choice([None, None, None, 1, 2])})
         elif r < (0.78 if cfg["links"] else 0.9):
@@ -484,9 +509,17 @@ def _step(ctx, g, w, coll, loaders, tracker, op, budget_mode, faulty_pkgs, all_p
             loader = loaders[op["loader"]]
             exists = op["pkg"] in all_pkgs
             try:
-                _run_op(lambda: loader.load(op["pkg"], try_relative_path=False), budget_mode)
+                _run_op(lambda: loader.load(op.get("objspec", op["pkg"]), try_relative_path=False, submodules=op.get("submodules", True)), budget_mode)
                 ctx.log("load", (op["pkg"], op["loader"], "ok"))
                 trace.append("load")
+            except (KeyError, g.AliasResolutionError, g.CyclicAliasError) as e:
+                # only the final lookup of a dotted object path may fail like this: the object does not exist, or
+                # the path goes through an alias that reports an alias error when dereferenced
+                if "objspec" not in op or "_post_load" not in core.griffe_frames(e, limit=30) or "expand_" in " ".join(core.griffe_frames(e, limit=30)):
+                    ctx.fail("I1-load-raised", f"load({op.get('objspec', op['pkg'])}) raised {type(e).__name__}: {w.norm(str(e))[:200]}", exc=e, tags=_exc_tags(e, tracker))
+                    return False
+                ctx.log("load", (op["objspec"], op["loader"], type(e).__name__))
+                trace.append("load-missing-object")
             except (g.LoadingError, ImportError) as e:
                 ctx.log("load", (op["pkg"], op["loader"], type(e).__name__))
                 trace.append("load-failed")
